@@ -11,8 +11,8 @@ use trustfall_core::ir::{
 
 use super::data_gen::DataView;
 use super::{Ty, params_sexp};
-use crate::sexp::Sexp;
-use crate::values::value_to_sexp;
+use tfharness::sexp::Sexp;
+use tfharness::values::value_to_sexp;
 
 pub fn vid_num(v: Vid) -> u64 {
     serde_json::to_value(v).ok().and_then(|x| x.as_u64()).expect("Vid serialises as a number")
@@ -221,7 +221,7 @@ pub fn args_from_sexp(s: &Sexp) -> Option<BTreeMap<String, FieldValue>> {
         .map(|p| {
             let l = p.as_list()?;
             let [n, v] = l else { return None };
-            Some((n.as_atom()?.to_string(), crate::values::sexp_to_value(v)?))
+            Some((n.as_atom()?.to_string(), tfharness::values::sexp_to_value(v)?))
         })
         .collect()
 }
